@@ -659,7 +659,7 @@ func Project(d *spec.Design, v any, u *spec.UserType, view string) any {
 		}
 		if f.Type.Kind == spec.User {
 			if nu := d.UserType(f.Type.Name); nu != nil && nu.IsResult {
-				out[fn] = Project(d, fv, nu, f.View)
+				out[fn] = Project(d, fv, nu, vw.NestedView(f))
 				continue
 			}
 		}
@@ -687,7 +687,7 @@ func OutsideView(d *spec.Design, got any, u *spec.UserType, view string, path st
 		if in[f.Name] {
 			if f.Type.Kind == spec.User && gv != nil {
 				if nu := d.UserType(f.Type.Name); nu != nil && nu.IsResult {
-					out = append(out, OutsideView(d, gv, nu, f.View, path+"."+f.Name)...)
+					out = append(out, OutsideView(d, gv, nu, vw.NestedView(f), path+"."+f.Name)...)
 				}
 			}
 			continue
